@@ -1,6 +1,7 @@
 """Correspondence section: pformat of values (printers for the built-in types, comments, truncation, depth) vs the Lean
 model M2, plus the CPython-side oracles of C01 / C03 / C09 / C10 / C11 evaluated on the implementation's own output."""
 import ast
+import datetime
 import io
 import multiprocessing as mp
 import random
@@ -1962,6 +1963,37 @@ def contains_enum(v):
 _READER_CASES = []
 
 
+def td_read_case(drv, value, sx, sets, sx_parse):
+    """a bare timedelta at every layout: `readTimedelta` (Spec/TdReader.lean) on the model's code tokens = CPython's eval of the implementation's
+    text = the value itself, in microseconds.  Returns None, or a mismatch / failing-input record (`_fail` True when the property itself fails)."""
+    want_us = (value.days * 86400 + value.seconds) * 10 ** 6 + value.microseconds
+    g = drv.ask('(tdread %s %s)' % (sx, ' '.join(settings_sx(*st) for st in sets)))
+    try:
+        res = sx_parse(g)
+    except Exception:
+        res = None
+    if not res or res[0] != 'ok' or len(res) != len(sets) + 1:
+        return {'_fail': False, 'kind': 'tdread request', 'value': repr(value), 'value_sx': sx, 'model': g[:300], 'impl': 'tdread request'}
+    for st, r in zip(sets, res[1:]):
+        indent, width, ribbon, depth, msl, sort = st
+        text = pp.pformat(value, indent=indent, width=width, depth=depth, ribbon_width=ribbon, max_seq_len=msl, sort_dict_keys=sort)
+        try:
+            got = eval(text, {'datetime': datetime})
+        except Exception as e:
+            return {'_fail': True, 'kind': 'timedelta-output-does-not-evaluate', 'why': '%s: %s' % (type(e).__name__, e), 'value': repr(value),
+                    'settings': st, 'text': text[:300]}
+        if depth is not None and depth < 2:
+            continue                # placeholders: C11's business, outside the theorem's hypotheses
+        if type(got) is not datetime.timedelta or got != value:
+            return {'_fail': True, 'kind': 'timedelta-output-evaluates-to-another-value', 'value': repr(value), 'settings': st, 'text': text[:300],
+                    'evaluates_to': repr(got)[:200]}
+        have = None if r == 'none' else (int(r[1]) if r[0] == 'pos' else -int(r[1]))
+        if have != want_us:
+            return {'_fail': False, 'kind': 'readTimedelta(code tokens of the model stream) differs from CPython eval of the implementation text',
+                    'value': repr(value), 'value_sx': sx, 'settings': st, 'impl': want_us, 'model': have, 'text': text[:300]}
+    return None
+
+
 def reader_chunk(cases):
     import sec_stdlib
     lenient = False
@@ -1984,6 +2016,14 @@ def reader_chunk(cases):
             mism.append({'value': repr(value)[:300], 'value_sx': sx[:1500], 'model': g[:300], 'impl': 'ctoks request'})
             continue
         readings = set()
+        if type(value) is datetime.timedelta:
+            try:
+                td_problem = td_read_case(drv, value, sx, sets, sx_parse)
+            except Exception as e:
+                td_problem = {'_fail': True, 'kind': 'pformat-raises', 'why': '%s: %s' % (type(e).__name__, e), 'value': repr(value)}
+            if td_problem is not None:
+                (fails if td_problem.pop('_fail') else mism).append(td_problem)
+                continue
         for st, r in zip(sets, res[1:]):
             indent, width, ribbon, depth, msl, sort = st
             n += 1
@@ -1999,8 +2039,10 @@ def reader_chunk(cases):
                 want = sx_parse(rval_of_ast(text))
             except Exception as e:
                 if lenient and isinstance(e, ValueError) and str(e) in ('outside the fragment: BinOp', 'outside the fragment: UnaryOp'):
-                    # timedelta prints arithmetic (`-datetime.timedelta(days=3 * 365 + 7)`): outside the reader's fragment, C07.timedelta covers it
-                    arith += 1
+                    # timedelta prints arithmetic (`-datetime.timedelta(days=3 * 365 + 7)`): outside the fragment of Spec/Reader.lean; a bare
+                    # timedelta is read by Spec/TdReader.lean instead (C07.timedelta_reads_back), nested ones are counted as skipped
+                    if type(value) is not datetime.timedelta:
+                        arith += 1
                     break
                 if len(fails) < 3:
                     fails.append({'kind': 'output-outside-the-expression-fragment', 'why': '%s: %s' % (type(e).__name__, e), 'value': repr(value)[:300],
@@ -2049,8 +2091,24 @@ def reader_section(tier, seed, mode='all'):
         for x in inst:
             ctxs = sec_stdlib.nest_contexts(x, rng)
             vals += ctxs if mode == 'c07' else [rng.choice(ctxs)]
+    n_td = 0
+    if mode in ('all', 'c07'):
+        # bare timedeltas for Spec/TdReader.lean: every sign, zero, whole years, exactly one year, boundary fields, extremes
+        td = datetime.timedelta
+        tds = [td(0), td(days=365), td(days=366), td(days=730), td(days=731, milliseconds=1), -td(days=365), td(microseconds=-1), td.min, td.max,
+               td(days=364, hours=23, minutes=59, seconds=59, milliseconds=999, microseconds=999), td(hours=1), td(microseconds=1000), -td(seconds=1)]
+        for _ in range(k // 4 if mode == 'all' else k):
+            tds.append(td(days=rng.choice([0, 0, 1, 364, 365, 366, 729, 730, rng.randrange(-4000, 4000), rng.randrange(-10 ** 6, 10 ** 6)]),
+                          seconds=rng.choice([0, 0, 59, 60, 3599, 3600, 86399, rng.randrange(86400)]),
+                          microseconds=rng.choice([0, 0, 1, 999, 1000, 999999, rng.randrange(10 ** 6)])))
+        n_td = len(tds)
+        vals += tds
     cases = []
     for v in vals:
+        if type(v) is datetime.timedelta:
+            ss = settings_for(rng, v, 'quick')
+            cases.append((v, [(i, w, r, None, None, 0) for (i, w, r, _, _, _) in ss] + [(i, w, r, dd, None, 0) for (i, w, r, _, _, _) in ss[:2] for dd in (2, 5)]))
+            continue
         if rng.random() < 0.3:
             v2 = add_comments(rng, v, 0.2)
             if not has_trailing_on_empty_dict_subclass(v2):      # K7
@@ -2081,7 +2139,7 @@ def reader_section(tier, seed, mode='all'):
             mism.extend(mm)
             fails.extend(ff)
     stats = {'evaluations': tot, 'distinct_nontrivial': nt, 'values': len(cases), 'mismatches': len(mism),
-             'values_printed_with_arithmetic_skipped': arith,
+             'values_printed_with_arithmetic_skipped': arith, 'bare_timedeltas_read_by_TdReader': n_td,
              'samples': [{'value': repr(cases[0][0])[:200]}, {'value': repr(cases[-1][0])[:200]}],
              'rule': 'instances of the generated subclasses of the nine built-in bases, pretty_call objects with 0-3 positional / 0-2 keyword arguments and '
                      'built-in value trees, nested in each other, 30% with comments, limits off, 5 layouts each: the reading of the canonical tokens by the '
